@@ -149,6 +149,81 @@ func runC02(c *Check) {
 			c.Unk("C02-R3", fnShort(step)+" ⟂ DeleteItem", fn, "", "anchor lost: no Cache.DeleteItem in the apply step")
 		}
 	}
+	// R7: the DA height persisted with the state
+	c.Doc("C02-R7", "VP+EO: no value derived from the triggering event's DA height or from the scan cursor flows into the DAHeight of the state the apply step persists (events still queued at a stop are dropped; a restart resumes scanning at the persisted height and would never re-fetch them).")
+	for _, step := range steps {
+		g := BuildECFG(p, step, ExpandOpts{MaxDepth: 3})
+		c.NoteGraph(g)
+		fn := fnName(step)
+		isState := IsCall(storeM("UpdateState"))
+		n7 := 0
+		for _, u := range g.Select(isState) {
+			root := rootOf(ArgTerm(u, 1))
+			if root == nil {
+				continue
+			}
+			var al *ssa.Alloc
+			if root.Op == "alloc" {
+				al, _ = root.V.(*ssa.Alloc)
+			} else if root.Op == "load" && root.Args[0].Op == "alloc" {
+				al, _ = root.Args[0].V.(*ssa.Alloc)
+			} else if ld, ok := root.V.(*ssa.UnOp); ok {
+				al, _ = ld.X.(*ssa.Alloc)
+			}
+			if al == nil {
+				// the state is an SSA value (never modified field-wise): nothing can be smuggled in
+				n7++
+				c.OK("C02-R7", fnShort(step)+" ⟂ persisted-DAHeight", fn, p.InstrPos(u.In), "the persisted state is the applier's result unmodified: "+trunc(root.String(), 80), true)
+				continue
+			}
+			wholeStore := func(n *Node) bool { st, ok := n.In.(*ssa.Store); return ok && st.Addr == ssa.Value(al) }
+			fieldStores := g.Select(func(n *Node) bool {
+				st, ok := n.In.(*ssa.Store)
+				if !ok {
+					return false
+				}
+				fa, ok := st.Addr.(*ssa.FieldAddr)
+				return ok && fa.X == ssa.Value(al)
+			})
+			clean := true
+			for _, fs := range fieldStores {
+				st := fs.In.(*ssa.Store)
+				path := g.PathAvoiding([]*Node{fs}, nodeSet([]*Node{u}), wholeStore)
+				if path == nil {
+					continue // overwritten before it is persisted
+				}
+				v := TermOf(st.Val, fs.Ctx)
+				tainted := false
+				v.Walk(func(t *Term) bool {
+					if t.Op == "param" && t.Name != step.Params[0].Name() && !strings.Contains(t.V.Type().String(), "context.Context") {
+						tainted = true
+					}
+					if t.IsCall("atomic.Uint64).Load") && len(t.Args) > 0 && t.Args[0].Name == "daHeight" {
+						tainted = true
+					}
+					return true
+				})
+				fld := TermOf(st.Addr, fs.Ctx).Name
+				n7++
+				if tainted {
+					clean = false
+					c.Bad("C02-R7", fnShort(step)+" ⟂ persisted-"+fld, fn, p.InstrPos(st), "the state persisted by the apply step carries "+fld+" ← "+trunc(v.String(), 100)+", derived from the triggering event's DA height / the scan cursor: after a stop with events still queued the scan resumes past blobs that were never applied", g.DescribePath(path))
+				} else {
+					c.OK("C02-R7", fnShort(step)+" ⟂ persisted-"+fld, fn, p.InstrPos(st), fld+" ← "+trunc(v.String(), 100), true)
+				}
+			}
+			if clean && len(fieldStores) == 0 {
+				n7++
+				c.OK("C02-R7", fnShort(step)+" ⟂ persisted-DAHeight", fn, p.InstrPos(u.In), "no field of the persisted state is overwritten", true)
+			} else if clean {
+				n7++
+				c.OK("C02-R7", fnShort(step)+" ⟂ persisted-state-fields", fn, p.InstrPos(u.In), "no field written before persisting derives from the event's DA height or the scan cursor", true)
+			}
+		}
+		if n7 == 0 {
+			c.Unk("C02-R7", fnShort(step)+" ⟂ persisted-DAHeight", fn, "", "anchor lost: no Store.UpdateState in the apply step")
+		}
+	}
 	c.MinInstances("C02-R1", 3)
 	c.MinInstances("C02-R2", 4)
 	c.MinInstances("C02-R3", 3)
